@@ -9,6 +9,7 @@ structure Inv (s : St) : Prop where
   /-- the counter is exactly: creations in flight + staged descriptions + live thread objects
       + destructions in flight -/
   count : s.cnt = s.creating + s.staged + s.destroying + nlive s
+  history : s.cnt + s.finished = s.started
   liveBound : ∀ o, s.live o = true → o < s.no
   curLive : ∀ a o, s.cur a = some o → s.live o = true ∧ s.running o = true
   curInj : ∀ a b o, s.cur a = some o → s.cur b = some o → a = b
@@ -30,7 +31,7 @@ structure Inv (s : St) : Prop where
   cfgWorkers : s.ph ≠ .none → s.ph ≠ .starting → s.nworkers = s.cfg.th
 
 theorem inv_init (na no : Nat) : Inv (init na no) := by
-  refine ⟨?_, ?_, ?_, ?_, ?_, ?_, ?_, ?_, ?_, ?_, ?_, ?_, ?_, ?_, ?_, ?_, ?_, ?_, ?_, ?_⟩ <;>
+  refine ⟨?_, ?_, ?_, ?_, ?_, ?_, ?_, ?_, ?_, ?_, ?_, ?_, ?_, ?_, ?_, ?_, ?_, ?_, ?_, ?_, ?_⟩ <;>
     simp [init, nlive, b2n, sumTo_eq_zero]
 
 attribute [local grind] b2n
@@ -38,14 +39,14 @@ attribute [local grind] b2n
 set_option hygiene false in
 macro "life_step" : tactic => `(tactic| (
   simp only [step] at h
-  obtain ⟨h1,h2,h3,h3b,h4,h5,h6,h7,h8,h9,h10,h11,h12,h13,h14,h15,h16,h17,h18,h19⟩ := hi
+  obtain ⟨h1,h1b,h2,h3,h3b,h4,h5,h6,h7,h8,h9,h10,h11,h12,h13,h14,h15,h16,h17,h18,h19⟩ := hi
   simp only [nlive] at h1
   repeat' split at h
   all_goals first | (simp at h; done) | skip
   all_goals (
     simp only [Option.some.injEq] at h
     subst h
-    refine ⟨?_, ?_, ?_, ?_, ?_, ?_, ?_, ?_, ?_, ?_, ?_, ?_, ?_, ?_, ?_, ?_, ?_, ?_, ?_, ?_⟩ <;> (try dsimp only [nlive])
+    refine ⟨?_, ?_, ?_, ?_, ?_, ?_, ?_, ?_, ?_, ?_, ?_, ?_, ?_, ?_, ?_, ?_, ?_, ?_, ?_, ?_, ?_⟩ <;> (try dsimp only [nlive])
   )
   all_goals first
     | assumption
@@ -77,14 +78,14 @@ theorem step_inv_seenCfg (s s' : St) (a t p : Nat) (hi : Inv s) (h : step s (.se
 set_option hygiene false in
 macro "life_step_sum" : tactic => `(tactic| (
   simp only [step] at h
-  obtain ⟨h1,h2,h3,h3b,h4,h5,h6,h7,h8,h9,h10,h11,h12,h13,h14,h15,h16,h17,h18,h19⟩ := hi
+  obtain ⟨h1,h1b,h2,h3,h3b,h4,h5,h6,h7,h8,h9,h10,h11,h12,h13,h14,h15,h16,h17,h18,h19⟩ := hi
   simp only [nlive] at h1
   split at h
   case isFalse => simp at h
   rename_i hg
   simp only [Option.some.injEq] at h
   subst h
-  refine ⟨?_, ?_, ?_, ?_, ?_, ?_, ?_, ?_, ?_, ?_, ?_, ?_, ?_, ?_, ?_, ?_, ?_, ?_, ?_, ?_⟩ <;> (try dsimp only [nlive])
+  refine ⟨?_, ?_, ?_, ?_, ?_, ?_, ?_, ?_, ?_, ?_, ?_, ?_, ?_, ?_, ?_, ?_, ?_, ?_, ?_, ?_, ?_⟩ <;> (try dsimp only [nlive])
   all_goals first
     | assumption
     | (intro u; grind [upd])
@@ -130,10 +131,10 @@ theorem step_inv_stopExit (s s' : St) (a r : Nat) (hi : Inv s) (h : step s (.sto
     cases hc : s.cur b with
     | none => rfl
     | some o => have := (hi.curLive b o hc).1; rw [hd.2.2.2 o] at this; cases this
-  obtain ⟨h1,h2,h3,h3b,h4,h5,h6,h7,h8,h9,h10,h11,h12,h13,h14,h15,h16,h17,h18,h19⟩ := hi
+  obtain ⟨h1,h1b,h2,h3,h3b,h4,h5,h6,h7,h8,h9,h10,h11,h12,h13,h14,h15,h16,h17,h18,h19⟩ := hi
   simp only [Option.some.injEq] at h
   subst h
-  refine ⟨?_, ?_, ?_, ?_, ?_, ?_, ?_, ?_, ?_, ?_, ?_, ?_, ?_, ?_, ?_, ?_, ?_, ?_, ?_, ?_⟩ <;> (try dsimp only [nlive])
+  refine ⟨?_, ?_, ?_, ?_, ?_, ?_, ?_, ?_, ?_, ?_, ?_, ?_, ?_, ?_, ?_, ?_, ?_, ?_, ?_, ?_, ?_⟩ <;> (try dsimp only [nlive])
   all_goals first
     | assumption
     | (intro u; simp [hcur]; done)
